@@ -304,14 +304,14 @@ theorem SameNS.numFinish (offs : Nat) {x y : NS} (h : SameNS x y) :
 
 
 theorem SameNS.numSuffix (d : Dialect) (U : UCls) (fuel : Nat) {x y : NS} (h : SameNS x y) :
-    SameNS (numSuffix d U src fuel x) (numSuffix d U src fuel y) := by
+    SameNS (Scan.numSuffix d U src fuel x) (Scan.numSuffix d U src fuel y) := by
   obtain ⟨s', hs, rfl⟩ := h.elim
   unfold GopModel.Scan.numSuffix
   simp only []
   rw [← hs.ch]
   split
   · split
-    · exact ⟨hs.next, rfl, rfl, rfl, rfl, rfl, rfl⟩
+    · exact ⟨(Same.next (src := src) hs), rfl, rfl, rfl, rfl, rfl, rfl⟩
     · exact ⟨hs, rfl, rfl, rfl, rfl, rfl, rfl⟩
   · split
     · have hi := Same.scanIdentifier (src := src) U fuel hs
@@ -325,8 +325,8 @@ theorem SameNS.numSuffix (d : Dialect) (U : UCls) (fuel : Nat) {x y : NS} (h : S
     · exact ⟨hs, rfl, rfl, rfl, rfl, rfl, rfl⟩
 
 theorem Same.scanNumber (d : Dialect) (U : UCls) (fuel : Nat) {a b : St} (h : Same a b) :
-    Same (scanNumber d U src fuel a).1 (scanNumber d U src fuel b).1 ∧
-      (scanNumber d U src fuel a).2 = (scanNumber d U src fuel b).2 := by
+    Same (Scan.scanNumber d U src fuel a).1 (Scan.scanNumber d U src fuel b).1 ∧
+      (Scan.scanNumber d U src fuel a).2 = (Scan.scanNumber d U src fuel b).2 := by
   unfold GopModel.Scan.scanNumber
   rw [h.off]
   exact (((SameNS.numInt fuel h).numFrac fuel).numExp fuel |>.numSuffix d U fuel).numFinish _
@@ -334,57 +334,57 @@ theorem Same.scanNumber (d : Dialect) (U : UCls) (fuel : Nat) {a b : St} (h : Sa
 /-! ### escapes, strings -/
 
 theorem Same.escDigits (base : Nat) : ∀ (n x : Nat) {a b : St}, Same a b →
-    Same (escDigits src base n x a).1 (escDigits src base n x b).1 ∧
-      (escDigits src base n x a).2 = (escDigits src base n x b).2 := by
+    Same (Scan.escDigits src base n x a).1 (Scan.escDigits src base n x b).1 ∧
+      (Scan.escDigits src base n x a).2 = (Scan.escDigits src base n x b).2 := by
   intro n
   induction n with
-  | zero => intro x a b h; simp only [GopModel.Scan.escDigits]; exact ⟨h, rfl⟩
+  | zero => intro x a b h; simp only [GopModel.Scan.escDigits]; exact ⟨h, by first | rfl | trivial⟩
   | succ n ih =>
     intro x a b h
     simp only [GopModel.Scan.escDigits]
     rw [← h.ch, ← h.off]
     split
     · exact ⟨h.error _ _, rfl⟩
-    · exact ih _ h.next
+    · exact ih _ (Same.next (src := src) h)
 
 theorem Same.escFinish (offs max : Nat) {r1 r2 : St × Option Nat} (h : Same r1.1 r2.1) (h2 : r1.2 = r2.2) :
-    Same (escFinish offs max r1).1 (escFinish offs max r2).1 ∧ (escFinish offs max r1).2 = (escFinish offs max r2).2 := by
+    Same (Scan.escFinish offs max r1).1 (Scan.escFinish offs max r2).1 ∧ (Scan.escFinish offs max r1).2 = (Scan.escFinish offs max r2).2 := by
   unfold GopModel.Scan.escFinish
   rw [← h2]
   split
-  · exact ⟨h, rfl⟩
+  · exact ⟨h, by first | rfl | trivial⟩
   · split
     · exact ⟨h.error _ _, rfl⟩
-    · exact ⟨h, rfl⟩
+    · exact ⟨h, by first | rfl | trivial⟩
 
 theorem Same.scanEscape (quote : Nat) {a b : St} (h : Same a b) :
-    Same (scanEscape src quote a).1 (scanEscape src quote b).1 ∧
-      (scanEscape src quote a).2 = (scanEscape src quote b).2 := by
+    Same (Scan.scanEscape src quote a).1 (Scan.scanEscape src quote b).1 ∧
+      (Scan.scanEscape src quote a).2 = (Scan.scanEscape src quote b).2 := by
   unfold GopModel.Scan.scanEscape
   simp only []
   rw [← h.ch, ← h.off]
   split
-  · exact ⟨h.next, rfl⟩
+  · exact ⟨(Same.next (src := src) h), rfl⟩
   · split
     · have := Same.escDigits (src := src) 8 3 0 h
       exact Same.escFinish _ _ this.1 this.2
     · split
-      · have := Same.escDigits (src := src) 16 2 0 h.next
+      · have := Same.escDigits (src := src) 16 2 0 (Same.next (src := src) h)
         exact Same.escFinish _ _ this.1 this.2
       · split
-        · have := Same.escDigits (src := src) 16 4 0 h.next
+        · have := Same.escDigits (src := src) 16 4 0 (Same.next (src := src) h)
           exact Same.escFinish _ _ this.1 this.2
         · split
-          · have := Same.escDigits (src := src) 16 8 0 h.next
+          · have := Same.escDigits (src := src) 16 8 0 (Same.next (src := src) h)
             exact Same.escFinish _ _ this.1 this.2
           · exact ⟨h.error _ _, rfl⟩
 
 theorem Same.runeLoop (offs : Nat) : ∀ (fuel : Nat) {a b : St} (v : Bool) (n : Nat), Same a b →
-    Same (runeLoop src offs fuel a v n).1 (runeLoop src offs fuel b v n).1 ∧
-      (runeLoop src offs fuel a v n).2 = (runeLoop src offs fuel b v n).2 := by
+    Same (Scan.runeLoop src offs fuel a v n).1 (Scan.runeLoop src offs fuel b v n).1 ∧
+      (Scan.runeLoop src offs fuel a v n).2 = (Scan.runeLoop src offs fuel b v n).2 := by
   intro fuel
   induction fuel with
-  | zero => intro a b v n h; simp only [GopModel.Scan.runeLoop]; exact ⟨h.setFail _, rfl⟩
+  | zero => intro a b v n h; simp only [GopModel.Scan.runeLoop]; exact ⟨h.setFail _, by first | rfl | trivial⟩
   | succ f ih =>
     intro a b v n h
     simp only [GopModel.Scan.runeLoop]
@@ -395,24 +395,24 @@ theorem Same.runeLoop (offs : Nat) : ∀ (fuel : Nat) {a b : St} (v : Bool) (n :
       · exact h.error _ _
       · exact h
     · split
-      · exact ⟨h.next, rfl⟩
+      · exact ⟨(Same.next (src := src) h), rfl⟩
       · split
-        · have he := Same.scanEscape (src := src) 0x27 h.next
+        · have he := Same.scanEscape (src := src) 0x27 (Same.next (src := src) h)
           rw [← he.2]
           exact ih _ _ he.1
-        · exact ih _ _ h.next
+        · exact ih _ _ (Same.next (src := src) h)
 
 theorem Same.scanRune (fuel : Nat) {a b : St} (h : Same a b) :
-    Same (scanRune src fuel a).1 (scanRune src fuel b).1 ∧ (scanRune src fuel a).2 = (scanRune src fuel b).2 := by
+    Same (Scan.scanRune src fuel a).1 (Scan.scanRune src fuel b).1 ∧ (Scan.scanRune src fuel a).2 = (Scan.scanRune src fuel b).2 := by
   unfold GopModel.Scan.scanRune
   simp only []
   rw [← h.off]
   have hl := Same.runeLoop (src := src) (a.off - 1) fuel true 0 h
   rw [← hl.2]
-  have h1 : Same (if (runeLoop src (a.off - 1) fuel a true 0).2.1 = true ∧ (runeLoop src (a.off - 1) fuel a true 0).2.2 ≠ 1
-      then (runeLoop src (a.off - 1) fuel a true 0).1.error (a.off - 1) .illegalRune else (runeLoop src (a.off - 1) fuel a true 0).1)
-      (if (runeLoop src (a.off - 1) fuel a true 0).2.1 = true ∧ (runeLoop src (a.off - 1) fuel a true 0).2.2 ≠ 1
-      then (runeLoop src (a.off - 1) fuel b true 0).1.error (a.off - 1) .illegalRune else (runeLoop src (a.off - 1) fuel b true 0).1) := by
+  have h1 : Same (if (Scan.runeLoop src (a.off - 1) fuel a true 0).2.1 = true ∧ (Scan.runeLoop src (a.off - 1) fuel a true 0).2.2 ≠ 1
+      then (Scan.runeLoop src (a.off - 1) fuel a true 0).1.error (a.off - 1) .illegalRune else (Scan.runeLoop src (a.off - 1) fuel a true 0).1)
+      (if (Scan.runeLoop src (a.off - 1) fuel a true 0).2.1 = true ∧ (Scan.runeLoop src (a.off - 1) fuel a true 0).2.2 ≠ 1
+      then (Scan.runeLoop src (a.off - 1) fuel b true 0).1.error (a.off - 1) .illegalRune else (Scan.runeLoop src (a.off - 1) fuel b true 0).1) := by
     split
     · exact hl.1.error _ _
     · exact hl.1
@@ -420,7 +420,7 @@ theorem Same.scanRune (fuel : Nat) {a b : St} (h : Same a b) :
   exact h1.sliceP _ _
 
 theorem Same.stringLoop (offs : Nat) : ∀ (fuel : Nat) {a b : St}, Same a b →
-    Same (stringLoop src offs fuel a) (stringLoop src offs fuel b) := by
+    Same (Scan.stringLoop src offs fuel a) (Scan.stringLoop src offs fuel b) := by
   intro fuel
   induction fuel with
   | zero => intro a b h; simp only [GopModel.Scan.stringLoop]; exact h.setFail _
@@ -431,13 +431,13 @@ theorem Same.stringLoop (offs : Nat) : ∀ (fuel : Nat) {a b : St}, Same a b →
     split
     · exact h.error _ _
     · split
-      · exact h.next
+      · exact (Same.next (src := src) h)
       · split
-        · exact ih (Same.scanEscape (src := src) 0x22 h.next).1
-        · exact ih h.next
+        · exact ih (Same.scanEscape (src := src) 0x22 (Same.next (src := src) h)).1
+        · exact ih (Same.next (src := src) h)
 
 theorem Same.scanString (fuel : Nat) {a b : St} (h : Same a b) :
-    Same (scanString src fuel a).1 (scanString src fuel b).1 ∧ (scanString src fuel a).2 = (scanString src fuel b).2 := by
+    Same (Scan.scanString src fuel a).1 (Scan.scanString src fuel b).1 ∧ (Scan.scanString src fuel a).2 = (Scan.scanString src fuel b).2 := by
   unfold GopModel.Scan.scanString
   simp only []
   rw [← h.off]
@@ -446,11 +446,11 @@ theorem Same.scanString (fuel : Nat) {a b : St} (h : Same a b) :
   exact hl.sliceP _ _
 
 theorem Same.rawStringLoop (offs : Nat) : ∀ (fuel : Nat) {a b : St} (c : Bool), Same a b →
-    Same (rawStringLoop src offs fuel a c).1 (rawStringLoop src offs fuel b c).1 ∧
-      (rawStringLoop src offs fuel a c).2 = (rawStringLoop src offs fuel b c).2 := by
+    Same (Scan.rawStringLoop src offs fuel a c).1 (Scan.rawStringLoop src offs fuel b c).1 ∧
+      (Scan.rawStringLoop src offs fuel a c).2 = (Scan.rawStringLoop src offs fuel b c).2 := by
   intro fuel
   induction fuel with
-  | zero => intro a b c h; simp only [GopModel.Scan.rawStringLoop]; exact ⟨h.setFail _, rfl⟩
+  | zero => intro a b c h; simp only [GopModel.Scan.rawStringLoop]; exact ⟨h.setFail _, by first | rfl | trivial⟩
   | succ f ih =>
     intro a b c h
     simp only [GopModel.Scan.rawStringLoop]
@@ -458,36 +458,36 @@ theorem Same.rawStringLoop (offs : Nat) : ∀ (fuel : Nat) {a b : St} (c : Bool)
     split
     · exact ⟨h.error _ _, rfl⟩
     · split
-      · exact ⟨h.next, rfl⟩
-      · exact ih _ h.next
+      · exact ⟨(Same.next (src := src) h), rfl⟩
+      · exact ih _ (Same.next (src := src) h)
 
 theorem Same.scanRawString (fuel : Nat) {a b : St} (h : Same a b) :
-    Same (scanRawString src fuel a).1 (scanRawString src fuel b).1 ∧
-      (scanRawString src fuel a).2 = (scanRawString src fuel b).2 := by
+    Same (Scan.scanRawString src fuel a).1 (Scan.scanRawString src fuel b).1 ∧
+      (Scan.scanRawString src fuel a).2 = (Scan.scanRawString src fuel b).2 := by
   unfold GopModel.Scan.scanRawString
   simp only []
   rw [← h.off]
   have hl := Same.rawStringLoop (src := src) (a.off - 1) fuel false h
   rw [← hl.2, ← hl.1.off]
-  have hs := hl.1.sliceP (src := src) (a.off - 1) (rawStringLoop src (a.off - 1) fuel a false).1.off
+  have hs := hl.1.sliceP (src := src) (a.off - 1) (Scan.rawStringLoop src (a.off - 1) fuel a false).1.off
   rw [← hs.2]
   exact ⟨hs.1, rfl⟩
 
 /-! ### comments -/
 
 theorem Same.lineCommentLoop : ∀ (fuel : Nat) {a b : St} (n : Nat), Same a b →
-    Same (lineCommentLoop src fuel a n).1 (lineCommentLoop src fuel b n).1 ∧
-      (lineCommentLoop src fuel a n).2 = (lineCommentLoop src fuel b n).2 := by
+    Same (Scan.lineCommentLoop src fuel a n).1 (Scan.lineCommentLoop src fuel b n).1 ∧
+      (Scan.lineCommentLoop src fuel a n).2 = (Scan.lineCommentLoop src fuel b n).2 := by
   intro fuel
   induction fuel with
-  | zero => intro a b n h; simp only [GopModel.Scan.lineCommentLoop]; exact ⟨h.setFail _, rfl⟩
+  | zero => intro a b n h; simp only [GopModel.Scan.lineCommentLoop]; exact ⟨h.setFail _, by first | rfl | trivial⟩
   | succ f ih =>
     intro a b n h
     simp only [GopModel.Scan.lineCommentLoop]
     rw [← h.ch]
     split
-    · exact ih _ h.next
-    · exact ⟨h, rfl⟩
+    · exact ih _ (Same.next (src := src) h)
+    · exact ⟨h, by first | rfl | trivial⟩
 
 /-- results of the general-comment loop that agree up to the flags -/
 structure SameBR (x y : BlockRes) : Prop where
@@ -497,7 +497,7 @@ structure SameBR (x y : BlockRes) : Prop where
   term : x.terminated = y.terminated
 
 theorem Same.blockCommentLoop : ∀ (fuel : Nat) {a b : St} (c nl : Nat), Same a b →
-    SameBR (blockCommentLoop src fuel a c nl) (blockCommentLoop src fuel b c nl) := by
+    SameBR (Scan.blockCommentLoop src fuel a c nl) (Scan.blockCommentLoop src fuel b c nl) := by
   intro fuel
   induction fuel with
   | zero => intro a b c nl h; simp only [GopModel.Scan.blockCommentLoop]; exact ⟨h.setFail _, rfl, rfl, rfl⟩
@@ -508,51 +508,52 @@ theorem Same.blockCommentLoop : ∀ (fuel : Nat) {a b : St} (c nl : Nat), Same a
     split
     · exact ⟨h, rfl, rfl, rfl⟩
     · split
-      · exact ⟨h.next.next, rfl, rfl, rfl⟩
-      · exact ih _ _ h.next
+      · exact ⟨(Same.next (src := src) (Same.next (src := src) h)), rfl, rfl, rfl⟩
+      · exact ih _ _ (Same.next (src := src) h)
 
 theorem Same.commentLoops (d : Dialect) (fuel : Nat) {a b : St} (h : Same a b) :
-    SameBR (commentLoops d src fuel a) (commentLoops d src fuel b) := by
+    SameBR (Scan.commentLoops d src fuel a) (Scan.commentLoops d src fuel b) := by
   unfold GopModel.Scan.commentLoops
   simp only []
   rw [← h.ch, ← h.off]
   split
-  · have := Same.lineCommentLoop (src := src) fuel 0 h.next
+  · have := Same.lineCommentLoop (src := src) fuel 0 (Same.next (src := src) h)
     exact ⟨this.1, by simp only [this.2], rfl, rfl⟩
   · split
-    · have := Same.blockCommentLoop (src := src) fuel 0 0 h.next
+    · have := Same.blockCommentLoop (src := src) fuel 0 0 (Same.next (src := src) h)
       rw [← this.term]
       split
       · exact this
-      · exact ⟨this.st.error _ _, this.numCR, this.nl, this.term⟩
+      · exact ⟨this.st.error _ _, this.numCR, this.nl, rfl⟩
     · have := Same.lineCommentLoop (src := src) fuel 0 h
       exact ⟨this.1, by simp only [this.2], rfl, rfl⟩
 
 theorem Same.updateLineInfo {a b : St} (h : Same a b) (offs : Nat) (text : List UInt8) :
-    Same (updateLineInfo a offs text) (updateLineInfo b offs text) := by
+    Same (Scan.updateLineInfo a offs text) (Scan.updateLineInfo b offs text) := by
   unfold GopModel.Scan.updateLineInfo
+  simp only []
   repeat' split
   all_goals first | exact h | exact h.setFail _ | exact h.error _ _
 
 theorem Same.commentDirective (d : Dialect) {a b : St} (h : Same a b) (offs : Nat) (lit : List UInt8) (t : Bool) :
-    Same (commentDirective d a offs lit t) (commentDirective d b offs lit t) := by
+    Same (Scan.commentDirective d a offs lit t) (Scan.commentDirective d b offs lit t) := by
   unfold GopModel.Scan.commentDirective
   rw [← h.lineOff]
   repeat' split
   all_goals first | exact h | exact h.setFail _ | exact h.updateLineInfo _ _
 
 theorem Same.commentStripCR {a b : St} (h : Same a b) (n : Nat) (lit : List UInt8) (nl : Nat) :
-    Same (commentStripCR a n lit nl).st (commentStripCR b n lit nl).st ∧
-      (commentStripCR a n lit nl).lit = (commentStripCR b n lit nl).lit ∧
-      (commentStripCR a n lit nl).nlOffset = (commentStripCR b n lit nl).nlOffset := by
+    Same (Scan.commentStripCR a n lit nl).st (Scan.commentStripCR b n lit nl).st ∧
+      (Scan.commentStripCR a n lit nl).lit = (Scan.commentStripCR b n lit nl).lit ∧
+      (Scan.commentStripCR a n lit nl).nlOffset = (Scan.commentStripCR b n lit nl).nlOffset := by
   unfold GopModel.Scan.commentStripCR
   repeat' split
   all_goals first | exact ⟨h, rfl, rfl⟩ | exact ⟨h.setFail _, rfl, rfl⟩
 
 theorem Same.scanCommentXG (d : Dialect) (fuel : Nat) {a b : St} (h : Same a b) :
-    Same (scanCommentXG d src fuel a).st (scanCommentXG d src fuel b).st ∧
-      (scanCommentXG d src fuel a).lit = (scanCommentXG d src fuel b).lit ∧
-      (scanCommentXG d src fuel a).nlOffset = (scanCommentXG d src fuel b).nlOffset := by
+    Same (Scan.scanCommentXG d src fuel a).st (Scan.scanCommentXG d src fuel b).st ∧
+      (Scan.scanCommentXG d src fuel a).lit = (Scan.scanCommentXG d src fuel b).lit ∧
+      (Scan.scanCommentXG d src fuel a).nlOffset = (Scan.scanCommentXG d src fuel b).nlOffset := by
   unfold GopModel.Scan.scanCommentXG
   rw [← h.off]
   split
@@ -560,18 +561,18 @@ theorem Same.scanCommentXG (d : Dialect) (fuel : Nat) {a b : St} (h : Same a b) 
   · simp only []
     have hl := Same.commentLoops (src := src) d fuel h
     rw [← hl.numCR, ← hl.nl, ← hl.term, ← hl.st.off]
-    have hs := hl.st.sliceP (src := src) (a.off - 1) (commentLoops d src fuel a).st.off
+    have hs := hl.st.sliceP (src := src) (a.off - 1) (Scan.commentLoops d src fuel a).st.off
     rw [← hs.2]
     exact (hs.1.commentDirective d _ _ _).commentStripCR _ _ _
 
 theorem Same.walk : ∀ (t : Trie) {a b : St}, Same a b →
-    Same (walk src t a).1 (walk src t b).1 ∧ (walk src t a).2 = (walk src t b).2
-  | .leaf _ _ _, a, b, h => by simp only [GopModel.Scan.walk]; exact ⟨h, rfl⟩
+    Same (Scan.walk src t a).1 (Scan.walk src t b).1 ∧ (Scan.walk src t a).2 = (Scan.walk src t b).2
+  | .leaf _ _ _, a, b, h => by simp only [GopModel.Scan.walk]; exact ⟨h, by first | rfl | trivial⟩
   | .test c y n, a, b, h => by
     simp only [GopModel.Scan.walk]
     rw [← h.ch]
     split
-    · exact Same.walk y h.next
+    · exact Same.walk y (Same.next (src := src) h)
     · exact Same.walk n h
 
 end GopModel.Scan
